@@ -58,7 +58,8 @@ func (c *Client) handleStatus() error {
 	cmd := c.findPendingCmdFunc(func(cmd command) bool {
 		switch cmd := cmd.(type) {
 		case *StatusCommand:
-			return cmd.mailbox == data.Mailbox
+			// INBOX is case-insensitive and canonicalized on the wire
+			return cmd.mailbox == data.Mailbox || (strings.EqualFold(cmd.mailbox, "INBOX") && strings.EqualFold(data.Mailbox, "INBOX"))
 		case *ListCommand:
 			return cmd.returnStatus && cmd.pendingData != nil && cmd.pendingData.Mailbox == data.Mailbox
 		default:
